@@ -414,6 +414,41 @@ func (c *kase) clauses(o *obs, fail func(class, what string)) {
 			}
 		}
 	}
+	// ---- (a') nothing is managed or redirected that the skip settings exclude
+	for _, dn := range o.certs {
+		d := c.nameIdx(dn)
+		ok := false
+		for si := range c.servers {
+			s := &c.servers[si]
+			if d >= 0 && c.active(s) && !s.disableCerts && contains(s.domainSet(), d) && c.names[d].q &&
+				!contains(s.skipCerts, d) && !(c.names[d].ld && !s.ignoreLd) {
+				ok = true
+			}
+		}
+		if !ok {
+			fail("coverage:non-qualifying-name-managed", fmt.Sprintf("%q is in allCertDomains %v but no server that is enabled, off the HTTP port and manages certificates names it without skipping it", dn, o.certs))
+		}
+	}
+	for _, os := range o.servers {
+		for _, r := range os.routes {
+			if !r.redir {
+				continue
+			}
+			for _, h := range r.hosts {
+				d := c.nameIdx(h)
+				ok := false
+				for si := range c.servers {
+					s := &c.servers[si]
+					if d >= 0 && c.active(s) && !s.disableRedir && contains(s.keysOf(), d) {
+						ok = true
+					}
+				}
+				if !ok {
+					fail("redirect:name-redirected-without-redirect-enabled-server", fmt.Sprintf("server %s redirects %q but no enabled server with redirects names it (skip list, disable_redirects)", os.name, h))
+				}
+			}
+		}
+	}
 	// ---- (b) servers confined to the HTTP port (or disabled) get neither
 	for d := 1; d < len(c.names); d++ {
 		named, onlyOff := false, true
